@@ -20,6 +20,12 @@ import (
 
 var pipeSeq atomic.Int64
 
+var (
+	rigsMu  sync.RWMutex
+	rigs    = map[*pipeline.Pipeline]*rig{}
+	obsOnce sync.Once
+)
+
 // rig is one real pipeline: fake input -> throttle action (built from JSON
 // through fd.SetupActions, i.e. the config path of the real binary) ->
 // devnull output, with the limiters' clock replaced by a virtual one.
@@ -28,6 +34,7 @@ type rig struct {
 	p      *pipeline.Pipeline
 	in     *fake.Plugin
 	clock  atomic.Int64
+	refused atomic.Int64
 	passed []atomic.Bool // by event index (event.Offset)
 
 	mu        sync.Mutex
@@ -44,7 +51,7 @@ func newRig(cfg *Config, nEvents int, parallel bool) (*rig, error) {
 		Capacity:            512,
 		MaintenanceInterval: 5 * time.Second,
 		EventTimeout:        pipeline.DefaultEventTimeout,
-		Antispam:            pipeline.AntispamSettings{Threshold: pipeline.DefaultAntispamThreshold},
+		Antispam:            pipeline.AntispamSettings{Threshold: pipeline.DefaultAntispamThreshold, MaintenanceInterval: pipeline.DefaultMaintenanceInterval},
 		AvgEventSize:        2048,
 		MetaCacheSize:       32,
 		StreamField:         "stream",
@@ -86,11 +93,27 @@ func newRig(cfg *Config, nEvents int, parallel bool) (*rig, error) {
 			r.passed[i].Store(true)
 		}
 	})
-	r.in.SetCommitFn(func(e *pipeline.Event) {
-		r.mu.Lock()
-		r.committed++
-		r.cond.Broadcast()
-		r.mu.Unlock()
+	// Discarded events are finalized without notifying the input, so the
+	// "event is done" signal is the finalize observer of the verif build.
+	rigsMu.Lock()
+	rigs[p] = r
+	rigsMu.Unlock()
+	obsOnce.Do(func() {
+		pipeline.VerifSetFinalizeObserver(func(p *pipeline.Pipeline, e *pipeline.Event, _, _ bool) {
+			if e.IsTimeoutKind() || e.IsChildKind() {
+				return
+			}
+			rigsMu.RLock()
+			r := rigs[p]
+			rigsMu.RUnlock()
+			if r == nil {
+				return
+			}
+			r.mu.Lock()
+			r.committed++
+			r.cond.Broadcast()
+			r.mu.Unlock()
+		})
 	})
 	p.Start()
 	r.p = p
@@ -101,14 +124,21 @@ func newRig(cfg *Config, nEvents int, parallel bool) (*rig, error) {
 	return r, nil
 }
 
-func (r *rig) send(e *Ev, src int) {
-	r.in.In(pipeline.SourceID(src), "c16", pipeline.NewOffsets(int64(e.Idx), nil), []byte(e.Raw))
+// send hands the event to the pipeline the way an input plugin does
+// (InputPluginController.In; fake.Plugin.In is the same call but drops the
+// result). false: the pipeline refused the event before any action saw it.
+func (r *rig) send(e *Ev, src int) bool {
+	seq := r.p.In(pipeline.SourceID(src), "c16", pipeline.NewOffsets(int64(e.Idx), nil), []byte(e.Raw), false, nil)
+	if seq == pipeline.EventSeqIDError {
+		r.refused.Add(1)
+		return false
+	}
+	return true
 }
 
 // waitCommitted blocks until n events were finalized (passed or discarded).
 // A generous watchdog returns false (the caller reports "inconclusive").
 func (r *rig) waitCommitted(n int) bool {
-	done := make(chan struct{})
 	var timedOut atomic.Bool
 	t := time.AfterFunc(60*time.Second, func() {
 		timedOut.Store(true)
@@ -117,7 +147,6 @@ func (r *rig) waitCommitted(n int) bool {
 		r.mu.Unlock()
 	})
 	defer t.Stop()
-	defer close(done)
 	r.mu.Lock()
 	defer r.mu.Unlock()
 	for r.committed < n && !timedOut.Load() {
@@ -128,6 +157,9 @@ func (r *rig) waitCommitted(n int) bool {
 
 func (r *rig) stop() {
 	r.p.Stop()
+	rigsMu.Lock()
+	delete(rigs, r.p)
+	rigsMu.Unlock()
 	throttle.VerifForget(r.name)
 }
 
@@ -150,7 +182,9 @@ func runSeq(c *Case, only func(*Ev) bool) ([]bool, []bool, error) {
 			if only != nil && !only(e) {
 				continue
 			}
-			r.send(e, 1)
+			if !r.send(e, 1) {
+				return nil, nil, errRefused
+			}
 			sent[e.Idx] = true
 			k++
 		}
@@ -167,6 +201,7 @@ func runSeq(c *Case, only func(*Ev) bool) ([]bool, []bool, error) {
 }
 
 var errWatchdog = fmt.Errorf("watchdog: events not finalized")
+var errRefused = fmt.Errorf("pipeline refused a generated event before the action")
 
 // runConc drives a history through a parallel pipeline: within a step the
 // events are fed from one goroutine per source, so that several processors
@@ -200,6 +235,9 @@ func runConc(c *Case) ([]bool, error) {
 			}(s)
 		}
 		wg.Wait()
+		if r.refused.Load() > 0 {
+			return nil, errRefused
+		}
 		n += len(st.Evs)
 		if !r.waitCommitted(n) {
 			return nil, errWatchdog
